@@ -147,7 +147,10 @@ def check_slots(chk, maxlen):
             if r.outcome == 'return':
                 s.add(z3.BV2Int(r.value.z(), False) != want)
             chk.queries += 1
-            if s.check() == z3.sat:
+            verdict = s.check()
+            if verdict in (z3.sat, z3.unsat):
+                chk.cross_check(s, 'sat' if verdict == z3.sat else 'unsat', every=10)
+            if verdict == z3.sat:
                 m = s.model()
                 vals = [m.eval(k, model_completion=True).as_long() * 8 for k in ks]
                 nat = chk.native.run([['slots', ','.join(map(str, vals))]])[0]
